@@ -209,6 +209,10 @@ func (un *Unit) invoke(fr *Frame, st *State, recv Val, recvT types.Type, m *type
 		all[0] = recv
 		return un.applyContract(fr, st, fc, names, sig, all, key, pos)
 	}
+	if (m.Name() == "Error" || m.Name() == "String") && sig.Params().Len() == 0 && sig.Results().Len() == 1 {
+		un.assumed["error.Error() / Stringer.String() methods are effect-free observers"] = true
+		return un.havocResults(st, sig, m.Name())
+	}
 	if recv.fn != nil {
 		// interface wrapping a known function value (e.g. a func type with methods): find the method
 		un.note("invoke on statically known func-typed receiver resolved")
